@@ -250,7 +250,8 @@ func operatorCase(c *run.Ctx) run.Result {
 	if c.Case%5 == 4 {
 		return varyingLineCase(c)
 	}
-	L := logU(r, -1.5, 1.5)
+	L := genScale(r)
+	res.SetAdd("size_decades", decade(L))
 	centre := genPos(r, L)
 	var leaves []shape
 	for k := 3 + r.Intn(4); k > 0; k-- {
@@ -268,9 +269,9 @@ func operatorCase(c *run.Ctx) run.Result {
 	c.Note("operators " + root.String())
 	collect := func() (frames []leafFrame, base float64) {
 		root.leafFrames(v3{}, &frames)
-		base = 1
+		base = 0
 		for _, f := range frames {
-			base = math.Max(base, math.Max(f.s.mag(), f.t.maxAbs()))
+			base = math.Max(base, math.Max(f.s.radius(), math.Max(f.s.mag(), f.t.maxAbs())))
 		}
 		return
 	}
@@ -479,7 +480,8 @@ func relocate(s shape, c v3) shape {
 func varyingLineCase(c *run.Ctx) run.Result {
 	var res run.Result
 	r := c.Rng
-	L := logU(r, -1.5, 1.5)
+	L := genScale(r)
+	res.SetAdd("size_decades", decade(L))
 	n := 2 + r.Intn(6)
 	pts := []v3{genPos(r, L)}
 	rad := []float64{L * logU(r, -1.5, 0)}
@@ -507,7 +509,7 @@ func varyingLineCase(c *run.Ctx) run.Result {
 			for _, k := range tmp {
 				m = math.Min(m, k.margin(q))
 			}
-			if math.Abs(m) > 1e-6*math.Max(1, q.maxAbs()) && ((m < 0) == wantIn || try >= 30) {
+			if math.Abs(m) > 1e-6*math.Max(L, q.maxAbs()) && ((m < 0) == wantIn || try >= 30) {
 				for i := range pts {
 					pts[i] = pts[i].sub(q)
 				}
@@ -524,9 +526,9 @@ func varyingLineCase(c *run.Ctx) run.Result {
 		}
 	}
 	c.Note("VarryingThicknessLine")
-	base := 1.0
+	base := 0.0
 	for _, k := range cones {
-		base = math.Max(base, k.mag())
+		base = math.Max(base, math.Max(k.radius(), k.mag()))
 	}
 	nIn, nOut := 0, 0
 	if p := run.Try(func() {
